@@ -18,7 +18,6 @@ package fstxn
 //@   props C01 C03 C06 C09 C11
 //@   requires fsInv(fsstate)
 //@   requires [L2-nolocks] noLocks() @C03 @C06
-//@   requires [R6-notnested] lastst != 0 @C01
 //@   allocates fstxn.FsTxn, alloctxn.AllocTxn, jrnl.Op, []uint64, map[uint64]*inode.Inode
 //@   modifies lastst, curop, freshinum, wroteinum, cphase
 //@   ghostset lastst = 0
@@ -182,7 +181,7 @@ package fstxn
 //@   allocates buf.Buf, addr.Addr, []uint8
 //@   modifies held, lastst, cphase, abits, map[uint64]*inode.Inode
 //@   ghostexit lastst = ite(result, 6, 4)
-//@   ensures [W3-flushed] (result ==> lastst == 6) && (!result ==> lastst == 4) @C07
+//@   ensures [W3-flushed] result && lastst == 6 @C07
 //@   ensures [L2-released] noLocks() && dirtyInv() @C03 @C06
 
 // A1-A3 (C09): abort drops the cached copy of every inode the transaction
